@@ -34,6 +34,7 @@ import AdaptaVerif.Lemmas.TopoConsScanNO
 import AdaptaVerif.Lemmas.TopoConsGen
 import AdaptaVerif.Lemmas.TopoConsStep
 import AdaptaVerif.Lemmas.TopoConsRewrite
+import AdaptaVerif.Lemmas.TopoConsTight
 import AdaptaVerif.Lemmas.TopoConsBend
 import AdaptaVerif.Lemmas.TopoConsNonOverlap
 namespace AdaptaVerif.Props.C13Cons
@@ -42,6 +43,8 @@ open AdaptaVerif.Lemmas.TopoConsScan (bOof bCof)
 open AdaptaVerif.Lemmas.TopoConsGen (triOf w0 w1 w2 w1' wSg pA pB pC pSg)
 open AdaptaVerif.Lemmas.TopoConsRewrite (SplitKeeps toFirstHalf)
 open AdaptaVerif.Lemmas.TopoConsBend (offLine)
+open AdaptaVerif.Model.Tri (TriConstraint minAlpha moveStep)
+open AdaptaVerif.Spec.Tri (Feasible)
 open AdaptaVerif.Lemmas.TopoConsNonOverlap (OpenAtClose Sep)
 
 /-! ### the scan -/
@@ -527,6 +530,87 @@ theorem bendSatisfy_preserves_sides {d : Nat} {st st' : EdgeSt} {i : Nat} {u v w
     (hvc : v.pos (conj d) = u.pos (conj d) + t * (w.pos (conj d) - u.pos (conj d))) (c0 : Rat) :
     SplitKeeps (u.pos d) (u.pos (conj d)) (w.pos d) (w.pos (conj d)) (v.pos d) (v.pos (conj d)) c0 :=
   AdaptaVerif.Lemmas.TopoConsRewrite.bendSatisfy_preserves_sides _h _hu _hv _hw h0 h1 hne hvs hvc c0
+
+/-! ### the whole `solve()` step: the satisfied constraint is tight -/
+
+/-- When the move is cut short (minTAlpha < 1) a constraint attaining the minimum - the `minT` that `solve()` then satisfies - has slack exactly 0 at the positions reached. -/
+theorem solve_step_satisfied_is_tight (d : Nat) (bO bC : Node → Node → Bool) (nodes : List Node)
+    (segs : List Seg) (extra : List TriConstraint) (ini fin : AdaptaVerif.Model.Tri.Pos)
+    (hini : Feasible ((consClosed d bO bC nodes segs).map (fun x => triOf x.1 x.2) ++ extra) ini)
+    (hlt : minAlpha ((consClosed d bO bC nodes segs).map (fun x => triOf x.1 x.2) ++ extra)
+      ini fin < 1) :
+    ∃ t ∈ (consClosed d bO bC nodes segs).map (fun x => triOf x.1 x.2) ++ extra,
+      t.msa ini fin =
+        minAlpha ((consClosed d bO bC nodes segs).map (fun x => triOf x.1 x.2) ++ extra) ini fin ∧
+      t.slackAt
+        (moveStep ((consClosed d bO bC nodes segs).map (fun x => triOf x.1 x.2) ++ extra) ini fin)
+        = 0 :=
+  AdaptaVerif.Lemmas.TopoConsTight.solve_step_satisfied_is_tight d bO bC nodes segs extra ini fin hini hlt
+
+/-- If that constraint is a StraightConstraint, the corner `StraightConstraint::satisfy` inserts lies on the moved segment's line ... -/
+theorem tight_bend_on_moved_segment {d : Nat} {sg : Seg} {n : Node} {pos : Rat} {c : SC}
+    (h : createStraight d sg n pos = some c) (x : Pos) (htight : (triOf sg c).slackAt x = 0) :
+    (⟨c.node.movedTo d x, c.ri⟩ : EPt).pos d = (sg.movedTo d x).inter d pos :=
+  AdaptaVerif.Lemmas.TopoConsTight.tight_bend_on_moved_segment h x htight
+
+/-- ... on the constraint's scan line, -/
+theorem tight_bend_on_scanline {d : Nat} {sg : Seg} {n : Node} {pos : Rat} {c : SC}
+    (h : createStraight d sg n pos = some c) (x : Pos)
+    (hev : pos = n.r.lo (conj d) ∨ pos = n.r.hi (conj d))
+    (hrect : n.r.lo (conj d) < n.r.hi (conj d)) :
+    (⟨c.node.movedTo d x, c.ri⟩ : EPt).pos (conj d) = pos :=
+  AdaptaVerif.Lemmas.TopoConsTight.tight_bend_on_scanline h x hev hrect
+
+/-- ... so the split replaces every scan-line crossing of the moved leg by one crossing at the same place. -/
+theorem tight_split_preserves_sides {d : Nat} {sg : Seg} {n : Node} {pos : Rat} {c : SC}
+    (h : createStraight d sg n pos = some c) (x : Pos) (htight : (triOf sg c).slackAt x = 0)
+    (hev : pos = n.r.lo (conj d) ∨ pos = n.r.hi (conj d))
+    (hrect : n.r.lo (conj d) < n.r.hi (conj d))
+    (hlo : sg.lo d ≤ pos) (hhi : pos ≤ sg.hi d) (c0 : Rat) :
+    SplitKeeps ((sg.movedTo d x).s.pos d) ((sg.movedTo d x).s.pos (conj d))
+      ((sg.movedTo d x).e.pos d) ((sg.movedTo d x).e.pos (conj d))
+      ((⟨c.node.movedTo d x, c.ri⟩ : EPt).pos d) ((⟨c.node.movedTo d x, c.ri⟩ : EPt).pos (conj d))
+      c0 :=
+  AdaptaVerif.Lemmas.TopoConsTight.tight_split_preserves_sides h x htight hev hrect hlo hhi c0
+
+/-- The three facts for a generated constraint that is tight after the move phase of `solve()`. -/
+theorem solve_step_straight_satisfy_preserves_sides (d : Nat) (bO bC : Node → Node → Bool)
+    (nodes : List Node) (segs : List Seg) (extra : List TriConstraint)
+    (ini fin : AdaptaVerif.Model.Tri.Pos)
+    (hpos : ∀ n ∈ nodes, n.r.lo (conj d) < n.r.hi (conj d))
+    (y : Seg × SC) (hy : y ∈ consClosed d bO bC nodes segs)
+    (htight : (triOf y.1 y.2).slackAt
+      (moveStep ((consClosed d bO bC nodes segs).map (fun x => triOf x.1 x.2) ++ extra) ini fin) = 0) :
+    let x' := moveStep ((consClosed d bO bC nodes segs).map (fun x => triOf x.1 x.2) ++ extra) ini fin
+    (⟨y.2.node.movedTo d x', y.2.ri⟩ : EPt).pos d = (y.1.movedTo d x').inter d y.2.pos ∧
+    (⟨y.2.node.movedTo d x', y.2.ri⟩ : EPt).pos (conj d) = y.2.pos ∧
+    ∀ c0 : Rat,
+      SplitKeeps ((y.1.movedTo d x').s.pos d) ((y.1.movedTo d x').s.pos (conj d))
+        ((y.1.movedTo d x').e.pos d) ((y.1.movedTo d x').e.pos (conj d))
+        ((⟨y.2.node.movedTo d x', y.2.ri⟩ : EPt).pos d)
+        ((⟨y.2.node.movedTo d x', y.2.ri⟩ : EPt).pos (conj d)) c0 :=
+  AdaptaVerif.Lemmas.TopoConsTight.solve_step_straight_satisfy_preserves_sides d bO bC nodes segs extra ini fin hpos y hy htight
+
+/-- **One `solve()` step, end to end**: from a feasible state with minTAlpha < 1 some constraint attains the minimum and is tight after the move; it is one of the other (bend / caller's) constraints or a generated StraightConstraint, and in the latter case satisfying it inserts a bend ON the moved segment and preserves the side of every node. -/
+theorem solve_step_tight_generated_or_extra (d : Nat) (bO bC : Node → Node → Bool)
+    (nodes : List Node) (segs : List Seg) (extra : List TriConstraint)
+    (ini fin : AdaptaVerif.Model.Tri.Pos)
+    (hpos : ∀ n ∈ nodes, n.r.lo (conj d) < n.r.hi (conj d))
+    (hini : Feasible ((consClosed d bO bC nodes segs).map (fun x => triOf x.1 x.2) ++ extra) ini)
+    (hlt : minAlpha ((consClosed d bO bC nodes segs).map (fun x => triOf x.1 x.2) ++ extra)
+      ini fin < 1) :
+    let cs := (consClosed d bO bC nodes segs).map (fun x => triOf x.1 x.2) ++ extra
+    let x' := moveStep cs ini fin
+    ∃ t ∈ cs, t.msa ini fin = minAlpha cs ini fin ∧ t.slackAt x' = 0 ∧
+      (t ∈ extra ∨ ∃ y ∈ consClosed d bO bC nodes segs, t = triOf y.1 y.2 ∧
+        (⟨y.2.node.movedTo d x', y.2.ri⟩ : EPt).pos d = (y.1.movedTo d x').inter d y.2.pos ∧
+        (⟨y.2.node.movedTo d x', y.2.ri⟩ : EPt).pos (conj d) = y.2.pos ∧
+        ∀ c0 : Rat,
+          SplitKeeps ((y.1.movedTo d x').s.pos d) ((y.1.movedTo d x').s.pos (conj d))
+            ((y.1.movedTo d x').e.pos d) ((y.1.movedTo d x').e.pos (conj d))
+            ((⟨y.2.node.movedTo d x', y.2.ri⟩ : EPt).pos d)
+            ((⟨y.2.node.movedTo d x', y.2.ri⟩ : EPt).pos (conj d)) c0) :=
+  AdaptaVerif.Lemmas.TopoConsTight.solve_step_tight_generated_or_extra d bO bC nodes segs extra ini fin hpos hini hlt
 
 /-! ### the non-overlap constraints of the scan -/
 
